@@ -10,7 +10,18 @@
 (*              fixtures (arbitrary keys: no kind-directed Norm) use the kind-free       *)
 (*              WeakOK: nothing invented, nothing changed, only zero-ish values or       *)
 (*              $ref siblings lost                                                       *)
-(*   j2 ja jb ji   every further trip succeeds and reproduces j1 exactly.                *)
+(*   j2 ja jb ji   every further trip succeeds and reproduces j1 exactly;                 *)
+(*   ju jyu jp jr  (document lines) so does every other reader with a fresh receiver:    *)
+(*              json.Unmarshal / yaml.Unmarshal into an openapi3.T without a loader,     *)
+(*              LoadFromDataWithPath, LoadFromIoReader; UnmarshalJSON of openapi2.T;     *)
+(*   jm jy jv   and every other writer of the parsed input: the MarshalJSON method, the  *)
+(*              value MarshalYAML hands to a YAML encoder, openapi2.T by value;          *)
+(*   jo         and the YAML reader with the option IncludeOrigin on;                    *)
+(*   history lines (line.hist.entry # "fresh", DocModel "Receivers and entry points"):   *)
+(*   prior      the prior documents are the ones the spec names and parse / fail as the  *)
+(*              spec says (realiser guard);                                              *)
+(*   jh         JSON of the ONE receiver after the prior documents and then the document *)
+(*              under test were parsed into it = j1: the earlier content has no influence. *)
 (* Every failed conjunct of every line is written to violations.ndjson with its finding  *)
 (* class; a j1 that differs from the L2 model's prediction is a fidelity warning.        *)
 EXTENDS FindingsC03, Json, CSV
@@ -38,22 +49,36 @@ Generated(line) == line.d.mode # "fixture"
 (* timestamps and all): only the later trips are judged                                                   *)
 FirstOK(line) == IF Generated(line) THEN FirstTripOK(line.ver, line.in, line.obs.j1.v)
                  ELSE line.d.src = "yaml" \/ WeakOK(line.obs.j1.v, line.in)
-Later(line) == {"j2", "ja", "ji"} \cup (IF "jb" \in DOMAIN line.obs THEN {"jb"} ELSE {})
+IsHist(line) == line.hist.entry # "fresh"
+(* the trips the spec demands of a line (a trip the harness did not record is a failed trip) *)
+DocTrips(ver) == IF ver = 3 THEN {"j2", "ja", "jb", "ji", "ju", "jyu", "jp", "jr", "jm", "jy", "jo"}
+                 ELSE {"j2", "ja", "ji", "ju", "jv", "jm"}
+Later(line) == IF IsHist(line) THEN {"jh"} ELSE DocTrips(line.ver)
+PriorOK(line) ==
+   /\ line.hist.entry \in HistEntries(line.ver)
+   /\ Len(line.obs.pr) = Len(line.hist.prior)
+   /\ \A i \in DOMAIN line.hist.prior :
+         LET p == line.hist.prior[i] IN
+         /\ p.name \in PriorNames /\ Same(PriorDoc(line.ver, p.name), p.doc)
+         /\ line.obs.pr[i] = PriorParses(p.name)
 
 Failed(line) ==
    (IF Same(line.c, line.in) THEN {} ELSE {"realised"})
    \cup (IF ~line.obs.j1.ok THEN {"parse"}
          ELSE (IF FirstOK(line) THEN {} ELSE {"first"})
-              \cup {n \in Later(line) : ~line.obs[n].ok \/ line.obs[n].v # line.obs.j1.v})
+              \cup (IF IsHist(line) /\ ~PriorOK(line) THEN {"prior"} ELSE {})
+              \cup {n \in Later(line) : n \notin DOMAIN line.obs \/ ~line.obs[n].ok \/ line.obs[n].v # line.obs.j1.v})
 
 (* where the failed trip first differs: first: vs the input; later trips: vs j1 *)
 At(line, f) ==
    CASE f = "first" -> Diff(line.in, line.obs.j1.v)
-     [] f \in {"j2", "ja", "jb", "ji"} -> IF line.obs[f].ok THEN Diff(line.obs.j1.v, line.obs[f].v) ELSE <<"!" \o line.obs[f].err>>
+     [] f \in DocTrips(2) \cup DocTrips(3) \cup {"jh"} ->
+           IF f \notin DOMAIN line.obs THEN <<"!not_recorded">>
+           ELSE IF line.obs[f].ok THEN Diff(line.obs.j1.v, line.obs[f].v) ELSE <<"!" \o line.obs[f].err>>
      [] f = "parse" -> <<"!" \o line.obs.j1.err>>
      [] OTHER -> <<>>
 Report(line, f) ==
-   [case |-> line.case, d |-> line.d, ver |-> line.ver, doc |-> line.c, ext |-> line.ext, failed |-> f, at |-> At(line, f),
+   [case |-> line.case, d |-> line.d, ver |-> line.ver, doc |-> line.c, ext |-> line.ext, hist |-> line.hist, failed |-> f, at |-> At(line, f),
     class |-> Class(line, f)]
 
 LineOK(line) ==
